@@ -18,6 +18,7 @@ type SolveResult struct {
 	Model   map[string]string
 	Output  string
 	Tried   []string
+	Linearized bool
 }
 
 type solverSpec struct {
@@ -36,6 +37,12 @@ var solvers = []solverSpec{
 
 // buildQuery renders the SMT script for an obligation.
 func (ex *Exec) buildQuery(o *Obligation, modelTerms []*smt.Term) string {
+	return ex.buildQueryOpt(o, modelTerms, false)
+}
+
+// buildQueryOpt: with linearize set, products of two non-constant terms are replaced by an
+// uninterpreted function (a sound over-approximation that keeps the solvers in linear arithmetic).
+func (ex *Exec) buildQueryOpt(o *Obligation, modelTerms []*smt.Term, linearize bool) string {
 	c := ex.W.C
 	var asserts []*smt.Term
 	asserts = append(asserts, ex.assumes[:o.NAssume]...)
@@ -87,6 +94,13 @@ func (ex *Exec) buildQuery(o *Obligation, modelTerms []*smt.Term) string {
 		sb.WriteString("))\n")
 		footer += sb.String()
 	}
+	if linearize {
+		ex.W.C.DeclareFun("nl_mul", []smt.Sort{smt.Int, smt.Int}, smt.Int)
+		ex.W.C.DeclareFun("nl_mulr", []smt.Sort{smt.Real, smt.Real}, smt.Real)
+		for i, a := range asserts {
+			asserts[i] = c.Linearize(a)
+		}
+	}
 	return c.Script("", asserts, footer, modelTerms...)
 }
 
@@ -121,9 +135,12 @@ func runSolver(sp solverSpec, script string, timeoutS int) (status, output strin
 	return runSolverCtx(context.Background(), sp, script, timeoutS)
 }
 
-// Solve first gives the primary solver one second; if that is not decisive all
-// solvers in `order` are raced for the full timeout and the first definite answer wins.
-func Solve(script string, timeoutS int, order []int) *SolveResult {
+// Solve first gives the primary solver one second on the exact script (and, if present, one second on
+// the linearized over-approximation); if that is not decisive all solvers in `order` are raced on both
+// for the full timeout and the first definite answer wins. For the linearized script only `unsat` counts.
+func Solve(script string, timeoutS int, order []int) *SolveResult { return Solve2(script, "", timeoutS, order) }
+
+func Solve2(script, lin string, timeoutS int, order []int) *SolveResult {
 	res := &SolveResult{Status: "unknown"}
 	t0 := time.Now()
 	quick := 1
@@ -139,25 +156,47 @@ func Solve(script string, timeoutS int, order []int) *SolveResult {
 	if st == "error" {
 		res.Output = out
 	}
+	if lin != "" {
+		st, out, secs := runSolver(solvers[order[0]], lin, quick)
+		res.Tried = append(res.Tried, fmt.Sprintf("%s(lin):%s:%.2fs", solvers[order[0]].name, st, secs))
+		if st == "unsat" {
+			res.Status, res.Solver, res.Output, res.Time, res.Linearized = st, solvers[order[0]].name+"(lin)", out, time.Since(t0).Seconds(), true
+			return res
+		}
+	}
 	type ans struct {
 		idx     int
+		lin     bool
 		st, out string
 		secs    float64
 	}
 	ctx, cancel := context.WithCancel(context.Background())
 	defer cancel()
-	ch := make(chan ans, len(order))
+	n := 0
+	ch := make(chan ans, 2*len(order))
 	for _, i := range order {
+		n++
 		go func(i int) {
 			st, out, secs := runSolverCtx(ctx, solvers[i], script, timeoutS)
-			ch <- ans{i, st, out, secs}
+			ch <- ans{i, false, st, out, secs}
 		}(i)
+		if lin != "" && i != 2 {
+			n++
+			go func(i int) {
+				st, out, secs := runSolverCtx(ctx, solvers[i], lin, timeoutS)
+				ch <- ans{i, true, st, out, secs}
+			}(i)
+		}
 	}
-	for n := 0; n < len(order); n++ {
+	for k := 0; k < n; k++ {
 		a := <-ch
-		res.Tried = append(res.Tried, fmt.Sprintf("%s:%s:%.2fs", solvers[a.idx].name, a.st, a.secs))
-		if a.st == "unsat" || a.st == "sat" {
-			res.Status, res.Solver, res.Output, res.Time = a.st, solvers[a.idx].name, a.out, time.Since(t0).Seconds()
+		name := solvers[a.idx].name
+		if a.lin {
+			name += "(lin)"
+		}
+		res.Tried = append(res.Tried, fmt.Sprintf("%s:%s:%.2fs", name, a.st, a.secs))
+		if a.st == "unsat" || (a.st == "sat" && !a.lin) {
+			res.Status, res.Solver, res.Output, res.Time, res.Linearized = a.st, name, a.out, time.Since(t0).Seconds(), a.lin
 			cancel()
 			return res
 		}
@@ -238,7 +277,7 @@ func sexprLen(s string) int {
 
 func (ex *Exec) unfoldAllowed(name string) bool {
 	if ex.FC == nil || ex.FC.Unfold == nil {
-		return true
+		return false
 	}
 	for _, u := range ex.FC.Unfold {
 		if strings.HasPrefix(name, "rf_"+u+"_") || name == "rf_"+u {
